@@ -31,6 +31,8 @@ type Query struct {
 	Unordered bool
 	// DeepUnordered: nested lists are assembled from maps as well (service topology).
 	DeepUnordered bool
+	// Single: a read of one item; its endpoint answers blockingquery.ErrNotFound when there is none.
+	Single bool
 	// NoIndex: the store method reports no query index (the wrapper returns a constant).
 	NoIndex bool
 	// NoWatch: the store method takes no watch set (not a blocking endpoint).
@@ -122,7 +124,12 @@ func (q Query) Eval(s *state.Store, ws memdb.WatchSet) QResult {
 func Battery(u Universe, keys []string, sessions []string, extra BatteryExtra) []Query {
 	var qs []Query
 	add := func(group, name string, f func(s *state.Store, ws memdb.WatchSet) (uint64, any, error)) {
-		qs = append(qs, Query{Name: name, Group: group, Run: f})
+		q := Query{Name: name, Group: group, Run: f}
+		switch strings.SplitN(name, "(", 2)[0] {
+		case "KVSGet", "SessionGet", "ConfigEntry", "ACLPolicyGetByID", "ACLRoleGetByID", "ACLTokenGetByAccessor", "PeeringRead", "PeeringTrustBundleRead":
+			q.Single = true
+		}
+		qs = append(qs, q)
 	}
 	peers := []string{""}
 	hasPeer := false
